@@ -1,6 +1,7 @@
 import AvoVerif.Drv.Common
 import AvoVerif.Model.RegHW
 import AvoVerif.Model.RegCtx
+import AvoVerif.Model.RegProc
 import AvoVerif.Gen.Regs
 import AvoVerif.Oracle.RegHW
 /-
@@ -313,10 +314,56 @@ def handle : Handler
     some (acceptCtxFresh (← k.toNat?) (← nreq.toNat?) ids)
   | _ => none
 
+/-- One operation of a process history, `<name>:<arg>…` (harness/c20proc.go). -/
+def parseProcOp (t : String) : Option ProcOp :=
+  match t.splitOn ":" with
+  | ["compile", shape] => some (.compile shape)
+  | ["main", shape] => some (.main shape)
+  | ["allocator", k, v] => do some (.allocator (← k.toNat?) v)
+  | ["mutate", k, how] => do some (.mutate (← k.toNat?) how)
+  | ["collection", _] => some .collection
+  | ["context", _] => some .context
+  | ["query", _] => some .query
+  | ["rand", seed, n] => do some (.rand (← seed.toNat?) (← n.toNat?))
+  | ["ctxhist", seed, n, _] => do some (.ctxhist (← seed.toNat?) (← n.toNat?))
+  | _ => none
+
+/-- The register table after a process history (`proc_table_const`: the table). -/
+def tableAfter (ops : List ProcOp) : List RegRow := (procRun { regs := regs } ops).regs
+
+/-- `<n> op×n ; inner…` -/
+def splitHist : List String → Option (List ProcOp × List String)
+  | n :: rest => do
+    let n ← n.toNat?
+    let ops ← (rest.take n).mapM parseProcOp
+    match rest.drop n with
+    | ";" :: inner => some (ops, inner)
+    | _ => none
+  | [] => none
+
+/-- Requests evaluated AFTER a history of public API use in the process: the model's answer is the answer of the
+table after that history — which is the table (`proc_table_const`), so the inner request is answered as in a
+clean process.  `tblh`: has the whole exhaustive table / API stream changed? -/
+def handleAfter : Handler
+  | "tblh" :: n :: toks => do
+    let n ← n.toNat?
+    if toks.length != n then none else
+    let ops ← toks.mapM parseProcOp
+    some (if tableAfter ops == regs then "same" else "changed")
+  | "after" :: rest => do
+    let (ops, inner) ← splitHist rest
+    if inner == ["nrows"] then some (toString (tableAfter ops).length) else
+    if tableAfter ops == regs then handle inner else none
+  | "accept-after" :: rest => do
+    let (ops, inner) ← splitHist rest
+    if tableAfter ops == regs then handle inner else none
+  | _ => none
+
 def handlers : List (String × Handler) :=
   ["row", "pas", "vas", "coll", "collrun", "lookupid", "lookupphys", "id", "spec", "accept-reg", "accept-ident", "accept-as",
    "accept-lookup", "accept-lookup-virtual", "accept-vas", "accept-ctor", "accept-fresh", "accept-class", "accept-vclass",
    "vnew", "accept-vnew", "vlook", "accept-vlook", "accept-lookup-junk", "accept-alloc-fail", "accept-var",
-   "accept-vlookdflt", "ctxh", "accept-ctxfresh"].map (·, handle)
+   "accept-vlookdflt", "ctxh", "accept-ctxfresh"].map (·, handle) ++
+  ["tblh", "after", "accept-after"].map (·, handleAfter)
 
 end Avo.Drv.C20
